@@ -18,4 +18,5 @@ pub use tests::gen_structure;
 #[derive(Clone, Copy, Debug, PartialEq, Eq, PartialOrd, Ord)]
 pub enum Version {
     V1,
+    V2,
 }
